@@ -154,6 +154,44 @@ Proof. revert l; induction k as [|k IH]; intros [|y l]; cbn; auto. Qed.
 Lemma skipn_cons_nth_error {A} (l : list A) k y r : skipn k l = y :: r -> nth_error l k = Some y.
 Proof. revert l; induction k as [|k IH]; intros [|z l]; cbn; try discriminate; auto. now intros [= ->]. Qed.
 
+(* more list access *)
+Lemma znth_nil_not_ok {A} (j : Z) (x : A) : znth (@nil A) j = Ok x -> False.
+Proof. intros H. apply znth_range in H. cbn in H. lia. Qed.
+
+Lemma znth_map_inv {A B} (g : A -> B) (l : list A) j y :
+  znth (map g l) j = Ok y -> exists x, znth l j = Ok x /\ y = g x.
+Proof.
+  intros H. pose proof (znth_range _ _ _ H) as Hr. rewrite map_length in Hr.
+  destruct (znth_in_range l j Hr) as (x & Ex). exists x. split; auto.
+  apply znth_nth_error in H as [_ H]. apply znth_nth_error in Ex as [_ Ex].
+  rewrite nth_error_map, Ex in H. cbn in H. congruence.
+Qed.
+
+Lemma znth_map {A B} (g : A -> B) (l : list A) j x : znth l j = Ok x -> znth (map g l) j = Ok (g x).
+Proof.
+  intros H. apply znth_nth_error in H as [H0 H].
+  rewrite <- (Z2Nat.id j) by lia. apply nth_error_znth. rewrite nth_error_map, H. reflexivity.
+Qed.
+
+Lemma zget_znth_or {A} (l : list A) j d : (exists x, znth l j = Ok x /\ zget l j d = x) \/ zget l j d = d.
+Proof. unfold zget. destruct (znth l j); eauto. Qed.
+
+Lemma zget_ext {A} (l l' : list A) d : length l = length l' ->
+  (forall j, 0 <= j < Z.of_nat (length l) -> zget l j d = zget l' j d) -> l = l'.
+Proof.
+  intros HL H. apply (nth_ext _ _ d d HL). intros n Hn.
+  specialize (H (Z.of_nat n) ltac:(lia)). rewrite !zget_nth in H.
+  replace (Z.of_nat n <? 0) with false in H by lia. now rewrite Nat2Z.id in H.
+Qed.
+
+Lemma map_singleton {A B} (g : A -> B) (l : list A) y : map g l = [y] -> exists x, l = [x] /\ g x = y.
+Proof. destruct l as [|x [|? ?]]; try discriminate. intros [= <-]. eauto. Qed.
+
+Lemma in_zrange j n : 0 <= j < n -> In j (zrange n).
+Proof.
+  intros H. unfold zrange. apply in_map_iff. exists (Z.to_nat j). split; [lia|]. apply in_seq. lia.
+Qed.
+
 Section Sound.
   Variable R : Type.
   Variables (r0 r1 : R) (radd rmul rsub : R -> R -> R) (ropp : R -> R).
@@ -165,14 +203,18 @@ Section Sound.
   Notation rval := (rval R).
   Notation RKey := (RKey R).
   Notation RLeaf := (RLeaf R).
+  Notation RTup := (RTup R).
   Notation leaf := (leaf R r0).
+  Notation cval := (cval R).
   Notation mnode := (mnode R r0 radd rmul rsub catom one).
   Notation msem := (msem R r0 radd rmul rsub catom one).
   Notation mval := (mval R r0 radd rmul rsub catom one).
   Notation nval := (nval R r0 radd rmul rsub catom one).
+  Notation lval := (lval R r0 radd rmul rsub catom one).
   Notation tape := (Z -> R).
   Notation upd := (Privacy.upd R Z Z.eqb).
   Notation sg := (Privacy.sgn R ropp).
+  Notation X := (list rval).
 
   (* --- agreement with RingEval.reval wherever it succeeds *)
   Lemma mnode_reval_node t i o vs v :
@@ -223,18 +265,8 @@ Section Sound.
   Proof. destruct o; try discriminate; reflexivity. Qed.
   Lemma mnode_const t t' i o vs vs' : isconst o = true -> mnode t i o vs = mnode t' i o vs'.
   Proof. destruct o; try discriminate; try reflexivity; destruct t0; reflexivity. Qed.
-
-  Lemma isem_supp_prf c p i nd look sts : isprf (n_op nd) = true -> ni_supp (isem c p i nd look sts) = [i].
-  Proof. unfold isem. cbn [ni_supp]. destruct (n_op nd); try discriminate; reflexivity. Qed.
-  Lemma isem_supp_other c p i nd look sts : isprf (n_op nd) = false ->
-    ni_supp (isem c p i nd look sts) = dsupp (map look (n_deps nd)).
-  Proof. unfold isem. cbn [ni_supp]. destruct (n_op nd); try discriminate; reflexivity. Qed.
-  Lemma isem_pre_other c p i nd look sts : is_input (n_op nd) = false -> isconst (n_op nd) = false ->
-    ni_pre (isem c p i nd look sts) = forallb ni_vd (map look (n_deps nd)).
-  Proof. unfold isem. cbn [ni_pre]. destruct (n_op nd); try discriminate; reflexivity. Qed.
-  Lemma isem_vd c p i nd look sts :
-    ni_vd (isem c p i nd look sts) = is_deliv p nd || ni_pre (isem c p i nd look sts).
-  Proof. reflexivity. Qed.
+  Lemma mnode_tget t i j v : mnode t i (OTupleGet j) [v] = cval j v.
+  Proof. destruct v; reflexivity. Qed.
 
   Lemma zmem_dsupp cl ds : zmem cl (dsupp ds) = existsb (fun a => zmem cl (ni_supp a)) ds.
   Proof.
@@ -242,18 +274,286 @@ Section Sound.
     now rewrite zmem_union, IH.
   Qed.
 
+  Lemma upd_same t cl v : upd t cl v cl = v.
+  Proof. unfold Privacy.upd. now rewrite Z.eqb_refl. Qed.
+  Lemma upd_other t cl v cl' : cl' <> cl -> upd t cl v cl' = t cl'.
+  Proof. unfold Privacy.upd. intros H. now replace (cl' =? cl) with false by lia. Qed.
+  Lemma sg_negb s a : sg (negb s) a = ropp (sg s a).
+  Proof. destruct s; cbn; ring. Qed.
+
+  (* ---------------------------------------------------------------- what an info claims *)
+  Definition vfun := tape -> X -> rval.
+
+  (* the static info [inf] is correct for the value function f: support, kind, slopes *)
+  Definition sem_ok (inf : ninfo) (f : vfun) : Prop :=
+    (forall t t' x, (forall cl, zmem cl (ni_supp inf) = true -> t cl = t' cl) -> f t x = f t' x) /\
+    (ni_kind inf = KdKey -> forall t x, f t x = RKey) /\
+    (ni_kind inf = KdLeaf -> forall t x, f t x = RLeaf (leaf (f t x))) /\
+    (forall cl s, In (cl, s) (ni_lin inf) -> forall t x v,
+       f (upd t cl v) x = RLeaf (radd (leaf (f t x)) (sg s (rsub v (t cl))))).
+
+  (* ... and for a node: the whole value, the tuple shape, every recorded component *)
+  Definition xnode_ok (xi : xinfo) (f : vfun) : Prop :=
+    sem_ok (fst xi) f /\
+    (ni_kind (fst xi) = KdTup -> forall t x, exists vs, f t x = RTup vs /\ length vs = length (snd xi)) /\
+    (forall j cj, znth (snd xi) j = Ok cj -> sem_ok cj (fun t x => cval j (f t x))).
+
+  Lemma sem_ok_ext a (f g : vfun) : (forall t x, f t x = g t x) -> sem_ok a f -> sem_ok a g.
+  Proof.
+    intros E (H1 & H2 & H3 & H4). repeat split.
+    - intros t t' x H. rewrite <- !E. now apply H1.
+    - intros K t x. rewrite <- E. now apply H2.
+    - intros K t x. rewrite <- !E. now apply H3.
+    - intros cl s Hin t x v. rewrite <- !E. now apply H4.
+  Qed.
+
+  Lemma sem_ok_sub a b (f : vfun) :
+    ni_supp b = ni_supp a -> ni_lin b = ni_lin a ->
+    (ni_kind b = KdKey -> ni_kind a = KdKey) -> (ni_kind b = KdLeaf -> ni_kind a = KdLeaf) ->
+    sem_ok a f -> sem_ok b f.
+  Proof.
+    intros Es El Kk Kl (H1 & H2 & H3 & H4). unfold sem_ok. rewrite Es, El. repeat split; auto.
+  Qed.
+
+  Lemma unk_kind_key k : unk_kind k = KdKey -> k = KdKey.
+  Proof. destruct k; cbn; congruence. Qed.
+  Lemma unk_kind_leaf k : unk_kind k = KdLeaf -> k = KdLeaf.
+  Proof. destruct k; cbn; congruence. Qed.
+  Lemma unk_kind_tup k : unk_kind k <> KdTup.
+  Proof. destruct k; cbn; congruence. Qed.
+
+  Lemma sem_ok_comp dv a (f : vfun) : sem_ok a f -> sem_ok (set_deliv dv (as_comp a)) f.
+  Proof.
+    apply sem_ok_sub; try reflexivity; cbn [set_deliv as_comp ni_kind]; auto using unk_kind_key, unk_kind_leaf.
+  Qed.
+
+  Lemma sem_ok_default (f : vfun) : (forall t t' x, f t x = f t' x) -> sem_ok ni_default f.
+  Proof.
+    intros H. repeat split; cbn; try discriminate; try contradiction. intros; apply H.
+  Qed.
+
+  Lemma xnode_ok_default : xnode_ok xi_default (fun _ _ => RKey).
+  Proof.
+    split; [|split].
+    - apply sem_ok_default. reflexivity.
+    - cbn. discriminate.
+    - cbn [snd xi_default]. intros j cj H. exfalso. exact (znth_nil_not_ok _ _ H).
+  Qed.
+
+  Lemma xnode_ok_ext xi (f g : vfun) : (forall t x, f t x = g t x) -> xnode_ok xi f -> xnode_ok xi g.
+  Proof.
+    intros E (H1 & H2 & H3). split; [|split].
+    - eapply sem_ok_ext; eauto.
+    - intros K t x. rewrite <- E. now apply H2.
+    - intros j cj Hj. eapply sem_ok_ext; [|apply (H3 j cj Hj)]. intros t x. cbn beta. now rewrite E.
+  Qed.
+
+  (* ---------------------------------------------------------------- inversion of the info builders *)
+  Lemma tget_of_inv o (xs : list xinfo) cj : tget_of o xs = Some cj ->
+    exists j a cs, o = OTupleGet j /\ xs = [(a, cs)] /\ znth cs j = Ok cj.
+  Proof.
+    unfold tget_of, tget_comp. destruct o; try discriminate.
+    destruct xs as [|[a cs] [|? ?]]; try discriminate.
+    destruct (znth cs i) eqn:E; try discriminate. intros [= <-]. eauto 6.
+  Qed.
+
+  Lemma comps_of_inv o (xs : list xinfo) j c1 : znth (comps_of o xs) j = Ok c1 ->
+    (o = OCreateTuple /\ exists xd, znth xs j = Ok xd /\ c1 = as_comp (fst xd)) \/
+    (o = ONOP /\ exists a cs c0, xs = [(a, cs)] /\ znth cs j = Ok c0 /\ c1 = as_comp c0).
+  Proof.
+    unfold comps_of. destruct o; try (intros H; exfalso; exact (znth_nil_not_ok _ _ H)).
+    - destruct xs as [|[a cs] [|? ?]]; try (intros H; exfalso; exact (znth_nil_not_ok _ _ H)).
+      intros H. apply znth_map_inv in H as (c0 & H & ->). right. split; auto. eauto 6.
+    - intros H. apply znth_map_inv in H as (a & H & ->). apply znth_map_inv in H as (xd & H & ->).
+      left. split; auto. eauto.
+  Qed.
+
+  Lemma pre_of_other c p i o ds sts : is_input o = false -> isconst o = false ->
+    pre_of c p i o ds sts = forallb ni_vd ds.
+  Proof. destruct o; try discriminate; reflexivity. Qed.
+  Lemma supp_of_prf i o ds : isprf o = true -> supp_of i o ds = [i].
+  Proof. destruct o; try discriminate; reflexivity. Qed.
+  Lemma supp_of_other i o ds : isprf o = false -> supp_of i o ds = dsupp ds.
+  Proof. destruct o; try discriminate; reflexivity. Qed.
+
+  Lemma isem_input_ok c p i nd (look : Z -> xinfo) sts k : is_input (n_op nd) = true ->
+    xnode_ok (isem c p i nd look sts) (fun _ x => hd RKey (skipn k x)).
+  Proof.
+    intros Ein. unfold isem. destruct (n_op nd); try discriminate Ein. cbn [tget_of comps_of map].
+    split; [|split]; cbn [fst snd].
+    - repeat split; cbn [ni_kind ni_lin kind_of lin_of]; try discriminate; try contradiction.
+    - cbn. discriminate.
+    - intros j cj H. exfalso. exact (znth_nil_not_ok _ _ H).
+  Qed.
+
+  (* ---------------------------------------------------------------- one node: isem is correct *)
+  Section OneNode.
+    Variables (c : config) (p : party) (i : Z) (nd : node) (look : Z -> xinfo) (sts : list status).
+    Variable fs : Z -> vfun.
+    Hypothesis Hlook : forall d, xnode_ok (look d) (fs d).
+    Let f : vfun := fun t x => mnode t i (n_op nd) (map (fun d => fs d t x) (n_deps nd)).
+    Let xs := map look (n_deps nd).
+    Let ds := map fst xs.
+
+    Lemma dep_top d : sem_ok (fst (look d)) (fs d).
+    Proof. apply Hlook. Qed.
+
+    Lemma f_supp : forall t t' x,
+      (forall cl, zmem cl (supp_of i (n_op nd) ds) = true -> t cl = t' cl) -> f t x = f t' x.
+    Proof.
+      intros t t' x H. unfold f. destruct (isprf (n_op nd)) eqn:Ep.
+      - rewrite !mnode_prf by exact Ep. f_equal. apply H. rewrite supp_of_prf by exact Ep.
+        cbn. now rewrite Z.eqb_refl.
+      - rewrite supp_of_other in H by exact Ep. rewrite (mnode_tape t t') by exact Ep. f_equal.
+        apply map_ext_in. intros d Hd. apply (dep_top d). intros cl Hcl. apply H.
+        rewrite zmem_dsupp. apply existsb_exists. exists (fst (look d)). split; [|exact Hcl].
+        unfold ds, xs. rewrite map_map. apply in_map_iff. eauto.
+    Qed.
+
+    Lemma f_key : kind_of (n_op nd) ds = KdKey -> forall t x, f t x = RKey.
+    Proof.
+      unfold f, ds, xs. intros K t x.
+      destruct (n_op nd); try discriminate; try reflexivity;
+        try (destruct t0; discriminate);
+        try (destruct (n_deps nd) as [|a [|b [|? ?]]]; cbn [map] in *; try discriminate; reflexivity).
+      (* NOP *)
+      destruct (n_deps nd) as [|a [|? ?]]; cbn [map] in *; try reflexivity.
+      cbn [MaskCheck.mnode]. cbn [kind_of] in K. now apply (dep_top a).
+    Qed.
+
+    Lemma f_leaf : kind_of (n_op nd) ds = KdLeaf -> forall t x, f t x = RLeaf (leaf (f t x)).
+    Proof.
+      unfold f, ds, xs. intros K t x.
+      destruct (n_op nd); try discriminate; try reflexivity;
+        try (destruct t0; try discriminate; reflexivity);
+        try (destruct (n_deps nd) as [|a [|b [|? ?]]]; cbn [map] in *; try discriminate; reflexivity).
+      (* NOP *)
+      destruct (n_deps nd) as [|a [|? ?]]; cbn [map] in *; try discriminate.
+      cbn [MaskCheck.mnode]. cbn [kind_of] in K. now apply (dep_top a).
+    Qed.
+
+    (* a dependency whose support does not contain the cell *)
+    Lemma dep_indep b cl t x v : zmem cl (ni_supp (fst (look b))) = false -> fs b (upd t cl v) x = fs b t x.
+    Proof.
+      intros H. apply (dep_top b). intros cl' Hcl'. apply upd_other. intros ->. congruence.
+    Qed.
+
+    Lemma f_lin : forall cl s, In (cl, s) (lin_of i (n_op nd) ds) -> forall t x v,
+      f (upd t cl v) x = RLeaf (radd (leaf (f t x)) (sg s (rsub v (t cl)))).
+    Proof.
+      unfold f, ds, xs. intros cl s H t x v.
+      destruct (n_op nd); try (cbn in H; contradiction).
+      - (* Add *)
+        destruct (n_deps nd) as [|a [|b [|? ?]]]; cbn [map lin_of] in *; try contradiction.
+        cbn [MaskCheck.mnode]. apply in_app_or in H as [H|H]; apply filter_In in H as [H Hn];
+          cbn [fst] in Hn; apply negb_true_iff in Hn.
+        + rewrite (dep_indep b cl t x v Hn).
+          destruct (dep_top a) as (_ & _ & _ & L). rewrite (L cl s H t x v). f_equal. cbn [MaskCheck.leaf]. ring.
+        + rewrite (dep_indep a cl t x v Hn).
+          destruct (dep_top b) as (_ & _ & _ & L). rewrite (L cl s H t x v). f_equal. cbn [MaskCheck.leaf]. ring.
+      - (* Subtract *)
+        destruct (n_deps nd) as [|a [|b [|? ?]]]; cbn [map lin_of] in *; try contradiction.
+        cbn [MaskCheck.mnode]. apply in_app_or in H as [H|H].
+        + apply filter_In in H as [H Hn]. cbn [fst] in Hn. apply negb_true_iff in Hn.
+          rewrite (dep_indep b cl t x v Hn).
+          destruct (dep_top a) as (_ & _ & _ & L). rewrite (L cl s H t x v). f_equal. cbn [MaskCheck.leaf]. ring.
+        + unfold lin_flip in H. apply in_map_iff in H as ([cl' s'] & Ee & H). cbn [fst snd] in Ee.
+          injection Ee as -> <-.
+          apply filter_In in H as [H Hn]. cbn [fst] in Hn. apply negb_true_iff in Hn.
+          rewrite (dep_indep a cl t x v Hn).
+          destruct (dep_top b) as (_ & _ & _ & L). rewrite (L cl s' H t x v). f_equal. cbn [MaskCheck.leaf].
+          rewrite sg_negb. ring.
+      - (* NOP *)
+        destruct (n_deps nd) as [|a [|? ?]]; cbn [map lin_of] in *; try contradiction.
+        cbn [MaskCheck.mnode]. destruct (dep_top a) as (_ & _ & _ & L). now apply L.
+      - (* PRF *)
+        cbn in H. destruct H as [H|[]]. injection H as <- <-. cbn [MaskCheck.mnode MaskCheck.leaf Privacy.sgn].
+        rewrite upd_same. f_equal. ring.
+    Qed.
+
+    Lemma f_shape : kind_of (n_op nd) ds = KdTup -> forall t x,
+      exists vs, f t x = RTup vs /\ length vs = length (comps_of (n_op nd) xs).
+    Proof.
+      unfold f, ds, xs. intros K t x.
+      destruct (n_op nd); try discriminate;
+        try (destruct t0; discriminate);
+        try (destruct (n_deps nd) as [|a [|b [|? ?]]]; cbn [map] in *; discriminate).
+      - (* NOP *)
+        destruct (n_deps nd) as [|a [|? ?]]; cbn [map] in *; try discriminate.
+        cbn [MaskCheck.mnode kind_of comps_of] in *.
+        destruct (Hlook a) as (_ & S & _). destruct (S K t x) as (vs & E & L).
+        exists vs. split; auto. destruct (look a) as [ia cs]. cbn [snd] in L. now rewrite map_length.
+      - (* CreateTuple *)
+        cbn [MaskCheck.mnode comps_of]. eexists. split; [reflexivity|]. now rewrite !map_length.
+    Qed.
+
+    Lemma f_comps : forall j c1, znth (comps_of (n_op nd) xs) j = Ok c1 ->
+      exists c0, c1 = as_comp c0 /\ sem_ok c0 (fun t x => cval j (f t x)).
+    Proof.
+      intros j c1 H. apply comps_of_inv in H as [(Eo & xd & H & ->)|(Eo & a & cs & c0 & Exs & H & ->)].
+      - unfold xs in H. apply znth_map_inv in H as (d & Hd & ->).
+        exists (fst (look d)). split; auto. eapply sem_ok_ext; [|apply (dep_top d)].
+        intros t x. unfold f. rewrite Eo. cbn [MaskCheck.mnode MaskCheck.cval].
+        symmetry. apply znth_zget. now apply (znth_map (fun d => fs d t x)).
+      - unfold xs in Exs. apply map_singleton in Exs as (d & Ed & El).
+        exists c0. split; auto. destruct (Hlook d) as (_ & _ & Cc). rewrite El in Cc. cbn [snd] in Cc.
+        eapply sem_ok_ext; [|apply (Cc j c0 H)]. intros t x. unfold f. rewrite Eo, Ed. reflexivity.
+    Qed.
+
+    Theorem isem_ok : is_input (n_op nd) = false -> xnode_ok (isem c p i nd look sts) f.
+    Proof.
+      intros Ein. unfold isem. fold xs. fold ds.
+      destruct (tget_of (n_op nd) xs) as [cj|] eqn:Et.
+      - apply tget_of_inv in Et as (j & a & cs & Eo & Exs & Hj).
+        unfold xs in Exs. apply map_singleton in Exs as (d & Ed & El).
+        assert (Ef : forall t x, cval j (fs d t x) = f t x).
+        { intros t x. unfold f. rewrite Eo, Ed. cbn [map]. now rewrite mnode_tget. }
+        destruct (Hlook d) as (_ & _ & Cc). rewrite El in Cc. cbn [snd] in Cc. specialize (Cc j cj Hj).
+        split; [|split]; cbn [fst snd].
+        + eapply sem_ok_ext; [exact Ef|]. revert Cc. apply sem_ok_sub; cbn [ni_supp ni_lin ni_kind]; auto using unk_kind_key, unk_kind_leaf.
+        + cbn [ni_kind]. intros K. exfalso. eapply unk_kind_tup; eauto.
+        + intros j' cj' H. exfalso. exact (znth_nil_not_ok _ _ H).
+      - split; [|split]; cbn [fst snd].
+        + unfold sem_ok. cbn [ni_supp ni_lin ni_kind]. split; [exact f_supp|]. split; [exact f_key|].
+          split; [exact f_leaf | exact f_lin].
+        + cbn [ni_kind]. intros K t x. destruct (f_shape K t x) as (vs & E & L). exists vs. split; auto.
+          now rewrite map_length.
+        + intros j cj H. apply znth_map_inv in H as (c1 & H & ->).
+          destruct (f_comps j c1 H) as (c0 & -> & S). now apply sem_ok_comp.
+    Qed.
+
+    (* the view flags *)
+    Lemma isem_vd_top : ni_vd (fst (isem c p i nd look sts)) = is_deliv p nd || ni_pre (fst (isem c p i nd look sts)).
+    Proof. unfold isem. destruct (tget_of _ _); reflexivity. Qed.
+    Lemma isem_vd_comp j cj : znth (snd (isem c p i nd look sts)) j = Ok cj ->
+      ni_vd cj = is_deliv p nd || ni_pre cj.
+    Proof.
+      unfold isem. destruct (tget_of _ _); cbn [snd]; intros H.
+      - exfalso. exact (znth_nil_not_ok _ _ H).
+      - apply znth_map_inv in H as (c1 & _ & ->). reflexivity.
+    Qed.
+  End OneNode.
+
   (* ---------------------------------------------------------------- fixed graph and observer *)
   Variable c : config.
   Variable p : party.
   Variable nodes : list node.
 
   Notation V t x i := (nval t x nodes i) (only parsing).
-  Notation I := (info_at c p nodes).
+  Notation Inf := (infos c p nodes).
+  Notation I := (topi (infos c p nodes)).
+  Notation C := (compsi (infos c p nodes)).
+  Definition xi_at (i : Z) : xinfo := zget (infos c p nodes) i xi_default.
   Definition vlk (t : tape) (x : list rval) (i d : Z) : rval :=
     if (0 <=? d) && (d <? i) then nval t x nodes d else RKey.
-  Definition ilook (i d : Z) : ninfo :=
-    if (0 <=? d) && (d <? i) then info_at c p nodes d else ni_default.
+  Definition ilook (i d : Z) : xinfo :=
+    if (0 <=? d) && (d <? i) then xi_at d else xi_default.
   Definition inum (i : Z) : nat := cnt_inputs (firstn (Z.to_nat i) nodes).
+
+  Lemma I_at i : I i = fst (xi_at i).
+  Proof. reflexivity. Qed.
+  Lemma C_at i : C i = snd (xi_at i).
+  Proof. reflexivity. Qed.
 
   Lemma nval_spec t x i nd : znth nodes i = Ok nd ->
     nval t x nodes i = msem t i nd (vlk t x i) (skipn (inum i) x).
@@ -262,19 +562,19 @@ Section Sound.
     rewrite (build_spec RKey (msem t) (msem_ext t) nodes x i nd H). reflexivity.
   Qed.
   Lemma info_spec i nd : znth nodes i = Ok nd ->
-    info_at c p nodes i = isem c p i nd (ilook i) (skipn (inum i) (cfg_inputs c)).
+    xi_at i = isem c p i nd (ilook i) (skipn (inum i) (cfg_inputs c)).
   Proof.
-    intros H. unfold info_at, infos.
-    rewrite (build_spec ni_default (isem c p) (isem_ext c p) nodes (cfg_inputs c) i nd H). reflexivity.
+    intros H. unfold xi_at, infos.
+    rewrite (build_spec xi_default (isem c p) (isem_ext c p) nodes (cfg_inputs c) i nd H). reflexivity.
   Qed.
   Lemma nval_out t x i : ~ (0 <= i < Z.of_nat (length nodes)) -> nval t x nodes i = RKey.
   Proof.
     intros H. unfold MaskCheck.nval, MaskCheck.mval. apply zget_out.
     now rewrite (build_length RKey (msem t) (msem_ext t)).
   Qed.
-  Lemma info_out i : ~ (0 <= i < Z.of_nat (length nodes)) -> info_at c p nodes i = ni_default.
+  Lemma info_out i : ~ (0 <= i < Z.of_nat (length nodes)) -> xi_at i = xi_default.
   Proof.
-    intros H. unfold info_at, infos. apply zget_out. now rewrite (build_length ni_default (isem c p) (isem_ext c p)).
+    intros H. unfold xi_at, infos. apply zget_out. now rewrite (build_length xi_default (isem c p) (isem_ext c p)).
   Qed.
 
   Lemma node_cases i : (exists nd, znth nodes i = Ok nd /\ 0 <= i) \/ ~ (0 <= i < Z.of_nat (length nodes)).
@@ -294,159 +594,113 @@ Section Sound.
       apply (Zlt_0_ind P). intros x IH _. apply H. intros d Hd. apply IH. exact Hd.
   Qed.
 
-  Lemma ilook_in i d : 0 <= d < i -> ilook i d = info_at c p nodes d.
+  Lemma ilook_in i d : 0 <= d < i -> ilook i d = xi_at d.
   Proof. intros H. unfold ilook. replace ((0 <=? d) && (d <? i)) with true by lia. reflexivity. Qed.
   Lemma vlk_in t x i d : 0 <= d < i -> vlk t x i d = nval t x nodes d.
   Proof. intros H. unfold vlk. replace ((0 <=? d) && (d <? i)) with true by lia. reflexivity. Qed.
-  Lemma ilook_cases i d : (0 <= d < i /\ ilook i d = info_at c p nodes d) \/ (~ 0 <= d < i /\ ilook i d = ni_default).
+  Lemma ilook_cases i d : (0 <= d < i /\ ilook i d = xi_at d) \/ (~ 0 <= d < i /\ ilook i d = xi_default).
   Proof.
     unfold ilook. destruct ((0 <=? d) && (d <? i)) eqn:E; [left | right]; split; auto; lia.
   Qed.
   Lemma vlk_out t x i d : ~ 0 <= d < i -> vlk t x i d = RKey.
   Proof. intros H. unfold vlk. replace ((0 <=? d) && (d <? i)) with false by lia. reflexivity. Qed.
 
-  (* ---------------------------------------------------------------- L1: support *)
-  Lemma supp_sound : forall i t t' x,
-    (forall cl, zmem cl (ni_supp (I i)) = true -> t cl = t' cl) -> V t x i = V t' x i.
-  Proof.
-    intros i. pattern i. apply node_ind. clear i. intros i IH t t' x H.
-    destruct (node_cases i) as [(nd & E & Hi)|Ho]; [|now rewrite !nval_out].
-    rewrite (nval_spec t x i nd E), (nval_spec t' x i nd E).
-    rewrite (info_spec i nd E) in H.
-    destruct (is_input (n_op nd)) eqn:Ein; [now rewrite !msem_input|].
-    rewrite !msem_other by exact Ein.
-    destruct (isprf (n_op nd)) eqn:Ep.
-    - rewrite !mnode_prf by exact Ep. f_equal. apply H. rewrite isem_supp_prf by exact Ep.
-      cbn. now rewrite Z.eqb_refl.
-    - rewrite isem_supp_other in H by exact Ep.
-      rewrite (mnode_tape t t') by exact Ep. f_equal. apply map_ext_in. intros d Hd.
-      destruct (ilook_cases i d) as [[Hr El]|[Hr El]]; [|now rewrite !vlk_out].
-      rewrite !vlk_in by exact Hr. apply IH; [exact Hr|]. intros cl Hcl. apply H.
-      rewrite zmem_dsupp. apply existsb_exists. exists (ilook i d). split; [now apply in_map|].
-      now rewrite El.
-  Qed.
-
-  Lemma tape_ext t t' x i : (forall cl, t cl = t' cl) -> V t x i = V t' x i.
-  Proof. intros H. apply supp_sound. intros; apply H. Qed.
-
-  (* ---------------------------------------------------------------- L0: kinds *)
-  Lemma kind_sound : forall i,
-    (ni_kind (I i) = KdKey -> forall t x, V t x i = RKey) /\
-    (ni_kind (I i) = KdLeaf -> forall t x, V t x i = RLeaf (leaf (V t x i))).
+  (* ---------------------------------------------------------------- L1: every node's info is correct *)
+  Theorem all_ok : forall i, xnode_ok (xi_at i) (fun t x => V t x i).
   Proof.
     intros i. pattern i. apply node_ind. clear i. intros i IH.
     destruct (node_cases i) as [(nd & E & Hi)|Ho].
-    2:{ rewrite info_out by exact Ho. split; discriminate. }
+    2:{ rewrite info_out by exact Ho. eapply xnode_ok_ext; [|apply xnode_ok_default].
+        intros t x. cbn beta. now rewrite nval_out. }
     rewrite (info_spec i nd E).
-    assert (S : forall t x, V t x i = msem t i nd (vlk t x i) (skipn (inum i) x))
-      by (intros; now apply nval_spec).
-    unfold isem. cbn [ni_kind].
     destruct (is_input (n_op nd)) eqn:Ein.
-    { destruct (n_op nd); try discriminate Ein. split; discriminate. }
-    split; intros K t x; rewrite S, msem_other by exact Ein;
-      destruct (n_op nd); try discriminate;
-      try (destruct t0; try discriminate; reflexivity);
-      try (destruct (n_deps nd) as [|a [|b [|? ?]]]; cbn [map] in *; try discriminate; reflexivity).
-    - (* NOP, key *)
-      destruct (n_deps nd) as [|a [|? ?]]; cbn [map] in *; try reflexivity.
-      cbn [MaskCheck.mnode]. destruct (ilook_cases i a) as [[Hr El]|[Hr El]]; rewrite El in K; [|discriminate].
-      rewrite vlk_in by exact Hr. now apply (IH a Hr).
-    - (* NOP, leaf *)
-      destruct (n_deps nd) as [|a [|? ?]]; cbn [map] in *; try discriminate.
-      cbn [MaskCheck.mnode]. destruct (ilook_cases i a) as [[Hr El]|[Hr El]]; rewrite El in K; [|discriminate].
-      rewrite vlk_in by exact Hr. now apply (IH a Hr).
+    - eapply xnode_ok_ext; [|apply (isem_input_ok c p i nd (ilook i) _ (inum i) Ein)].
+      intros t x. cbn beta. now rewrite (nval_spec t x i nd E), msem_input.
+    - eapply xnode_ok_ext; [|apply (isem_ok c p i nd (ilook i) _ (fun d t x => vlk t x i d)); [|exact Ein]].
+      + intros t x. cbn beta. now rewrite (nval_spec t x i nd E), msem_other.
+      + intros d. destruct (ilook_cases i d) as [[Hr El]|[Hr El]]; rewrite El.
+        * eapply xnode_ok_ext; [|apply (IH d Hr)]. intros t x. cbn beta. now rewrite vlk_in.
+        * eapply xnode_ok_ext; [|apply xnode_ok_default]. intros t x. cbn beta. now rewrite vlk_out.
   Qed.
 
-  (* ---------------------------------------------------------------- L2: slopes *)
-  Lemma upd_same t cl v : upd t cl v cl = v.
-  Proof. unfold Privacy.upd. now rewrite Z.eqb_refl. Qed.
-  Lemma upd_other t cl v cl' : cl' <> cl -> upd t cl v cl' = t cl'.
-  Proof. unfold Privacy.upd. intros H. now replace (cl' =? cl) with false by lia. Qed.
+  Lemma top_ok i : sem_ok (I i) (fun t x => V t x i).
+  Proof. apply (all_ok i). Qed.
+  Lemma shape_ok i : ni_kind (I i) = KdTup -> forall t x, exists vs, V t x i = RTup vs /\ length vs = length (C i).
+  Proof. apply (all_ok i). Qed.
+  Lemma comp_ok i j cj : znth (C i) j = Ok cj -> sem_ok cj (fun t x => cval j (V t x i)).
+  Proof. apply (all_ok i). Qed.
 
-  Lemma ilook_lin i a e : In e (ni_lin (ilook i a)) -> 0 <= a < i /\ ilook i a = info_at c p nodes a.
+  Lemma supp_sound i t t' x :
+    (forall cl, zmem cl (ni_supp (I i)) = true -> t cl = t' cl) -> V t x i = V t' x i.
+  Proof. apply (top_ok i). Qed.
+  Lemma tape_ext t t' x i : (forall cl, t cl = t' cl) -> V t x i = V t' x i.
+  Proof. intros H. apply supp_sound. intros; apply H. Qed.
+
+  (* locations *)
+  Lemma linfo_cases n j :
+    (j < 0 /\ linfo Inf n j = I n) \/
+    (0 <= j /\ exists cj, znth (C n) j = Ok cj /\ linfo Inf n j = cj) \/
+    (0 <= j /\ linfo Inf n j = ni_default).
   Proof.
-    destruct (ilook_cases i a) as [[Hr El]|[Hr El]]; [auto|]. rewrite El. cbn. contradiction.
+    unfold linfo. destruct (j <? 0) eqn:E; [left; split; [lia | reflexivity]|right].
+    destruct (zget_znth_or (C n) j ni_default) as [(cj & H1 & H2)|H]; [left | right]; split; try lia; eauto.
   Qed.
 
-  (* value of a dependency whose support does not contain the cell *)
-  Lemma vlk_upd_indep t x i b cl v :
-    (forall d, 0 <= d < i -> forall t t' x, (forall cl, zmem cl (ni_supp (I d)) = true -> t cl = t' cl) -> V t x d = V t' x d) ->
-    zmem cl (ni_supp (ilook i b)) = false -> vlk (upd t cl v) x i b = vlk t x i b.
+  Lemma loc_ok n j : linfo Inf n j = ni_default \/ sem_ok (linfo Inf n j) (fun t x => lval t x nodes n j).
   Proof.
-    intros L1 H. destruct (ilook_cases i b) as [[Hr El]|[Hr El]]; [|now rewrite !vlk_out].
-    rewrite !vlk_in by exact Hr. apply L1; [exact Hr|]. intros cl' Hcl'. apply upd_other.
-    intros ->. rewrite El in H. congruence.
+    destruct (linfo_cases n j) as [[Hj E]|[[Hj (cj & Hc & E)]|[Hj E]]]; [right | right | left; exact E]; rewrite E.
+    - eapply sem_ok_ext; [|apply top_ok]. intros t x. unfold MaskCheck.lval.
+      now replace (j <? 0) with true by lia.
+    - eapply sem_ok_ext; [|apply (comp_ok n j cj Hc)]. intros t x. unfold MaskCheck.lval.
+      now replace (j <? 0) with false by lia.
   Qed.
 
-  Lemma sg_negb s a : sg (negb s) a = ropp (sg s a).
-  Proof. destruct s; cbn; ring. Qed.
+  Lemma loc_ok_lin n j e : In e (ni_lin (linfo Inf n j)) -> sem_ok (linfo Inf n j) (fun t x => lval t x nodes n j).
+  Proof. destruct (loc_ok n j) as [E|H]; auto. rewrite E. cbn. contradiction. Qed.
+  Lemma loc_ok_kind n j : ni_kind (linfo Inf n j) <> KdUnk -> sem_ok (linfo Inf n j) (fun t x => lval t x nodes n j).
+  Proof. destruct (loc_ok n j) as [E|H]; auto. rewrite E. cbn. congruence. Qed.
 
-  Lemma slope_sound : forall i cl s, In (cl, s) (ni_lin (I i)) ->
-    forall t x v, V (upd t cl v) x i = RLeaf (radd (leaf (V t x i)) (sg s (rsub v (t cl)))).
+  Definition valid_loc (n j : Z) : Prop := j < 0 \/ exists cj, znth (C n) j = Ok cj.
+  Lemma linfo_top n j : j < 0 -> linfo Inf n j = I n.
+  Proof. intros H. unfold linfo. now replace (j <? 0) with true by lia. Qed.
+  Lemma linfo_comp n j cj : znth (C n) j = Ok cj -> 0 <= j /\ linfo Inf n j = cj.
   Proof.
-    intros i. pattern i. apply node_ind. clear i. intros i IH cl s H t x v.
-    destruct (node_cases i) as [(nd & E & Hi)|Ho].
-    2:{ rewrite info_out in H by exact Ho. cbn in H. contradiction. }
-    rewrite (info_spec i nd E) in H.
-    rewrite (nval_spec _ x i nd E), (nval_spec t x i nd E).
-    unfold isem in H. cbn [ni_lin] in H.
-    destruct (is_input (n_op nd)) eqn:Ein.
-    { destruct (n_op nd); try discriminate Ein. cbn in H. contradiction. }
-    rewrite !msem_other by exact Ein.
-    assert (L1 := fun d (_ : 0 <= d < i) => supp_sound d).
-    destruct (n_op nd); try (cbn in H; contradiction).
-    - (* Add *)
-      destruct (n_deps nd) as [|a [|b [|? ?]]]; cbn [map] in *; try contradiction.
-      cbn [MaskCheck.mnode]. apply in_app_or in H as [H|H]; apply filter_In in H as [H Hn];
-        cbn [fst] in Hn; apply negb_true_iff in Hn.
-      + destruct (ilook_lin i a _ H) as [Hr El]. rewrite El in H.
-        rewrite (vlk_upd_indep t x i b cl v L1 Hn), !(vlk_in _ _ i a Hr).
-        rewrite (IH a Hr cl s H t x v). f_equal. cbn [MaskCheck.leaf]. ring.
-      + destruct (ilook_lin i b _ H) as [Hr El]. rewrite El in H.
-        rewrite (vlk_upd_indep t x i a cl v L1 Hn), !(vlk_in _ _ i b Hr).
-        rewrite (IH b Hr cl s H t x v). f_equal. cbn [MaskCheck.leaf]. ring.
-    - (* Subtract *)
-      destruct (n_deps nd) as [|a [|b [|? ?]]]; cbn [map] in *; try contradiction.
-      cbn [MaskCheck.mnode]. apply in_app_or in H as [H|H].
-      + apply filter_In in H as [H Hn]. cbn [fst] in Hn. apply negb_true_iff in Hn.
-        destruct (ilook_lin i a _ H) as [Hr El]. rewrite El in H.
-        rewrite (vlk_upd_indep t x i b cl v L1 Hn), !(vlk_in _ _ i a Hr).
-        rewrite (IH a Hr cl s H t x v). f_equal. cbn [MaskCheck.leaf]. ring.
-      + unfold lin_flip in H. apply in_map_iff in H as ([cl' s'] & Ee & H). cbn [fst snd] in Ee.
-        injection Ee as -> <-.
-        apply filter_In in H as [H Hn]. cbn [fst] in Hn. apply negb_true_iff in Hn.
-        destruct (ilook_lin i b _ H) as [Hr El]. rewrite El in H.
-        rewrite (vlk_upd_indep t x i a cl v L1 Hn), !(vlk_in _ _ i b Hr).
-        rewrite (IH b Hr cl s' H t x v). f_equal. cbn [MaskCheck.leaf]. rewrite sg_negb. ring.
-    - (* NOP *)
-      destruct (n_deps nd) as [|a [|? ?]]; cbn [map] in *; try contradiction.
-      cbn [MaskCheck.mnode]. destruct (ilook_lin i a _ H) as [Hr El]. rewrite El in H.
-      rewrite !vlk_in by exact Hr. now apply IH.
-    - (* PRF *)
-      cbn in H. destruct H as [H|[]]. injection H as <- <-. cbn [MaskCheck.mnode MaskCheck.leaf Privacy.sgn].
-      rewrite upd_same. f_equal. ring.
+    intros H. pose proof (znth_range _ _ _ H) as Hr. split; [lia|]. unfold linfo.
+    replace (j <? 0) with false by lia. now apply znth_zget.
+  Qed.
+  Lemma lval_top t x n j : j < 0 -> lval t x nodes n j = V t x n.
+  Proof. intros H. unfold MaskCheck.lval. now replace (j <? 0) with true by lia. Qed.
+  Lemma lval_comp t x n j : 0 <= j -> lval t x nodes n j = cval j (V t x n).
+  Proof. intros H. unfold MaskCheck.lval. now replace (j <? 0) with false by lia. Qed.
+  Lemma loc_ok_valid n j : valid_loc n j -> sem_ok (linfo Inf n j) (fun t x => lval t x nodes n j).
+  Proof.
+    intros [Hj|(cj & Hc)].
+    - rewrite linfo_top by exact Hj. eapply sem_ok_ext; [|apply top_ok]. intros t x. cbn beta. now rewrite lval_top.
+    - destruct (linfo_comp n j cj Hc) as [Hj ->]. eapply sem_ok_ext; [|apply (comp_ok n j cj Hc)].
+      intros t x. cbn beta. now rewrite lval_comp.
   Qed.
 
-  Lemma lin_leaf i cl s : In (cl, s) (ni_lin (I i)) -> forall t x, V t x i = RLeaf (leaf (V t x i)).
+  Lemma lin_leaf n j cl s : In (cl, s) (ni_lin (linfo Inf n j)) ->
+    forall t x, lval t x nodes n j = RLeaf (leaf (lval t x nodes n j)).
   Proof.
-    intros H t x. pose proof (slope_sound i cl s H t x (t cl)) as S.
-    rewrite (tape_ext (upd t cl (t cl)) t) in S.
-    - destruct (nval t x nodes i); try discriminate S; reflexivity.
-    - intros cl'. unfold Privacy.upd. destruct (Z.eqb_spec cl' cl); congruence.
+    intros H t x. destruct (loc_ok_lin n j _ H) as (S1 & _ & _ & S4).
+    pose proof (S4 cl s H t x (t cl)) as S. cbn beta in S.
+    rewrite (S1 (upd t cl (t cl)) t x) in S.
+    - destruct (lval t x nodes n j); try discriminate S; reflexivity.
+    - intros cl' _. unfold Privacy.upd. destruct (Z.eqb_spec cl' cl); congruence.
   Qed.
 
   (* ---------------------------------------------------------------- L3: the recorded masks form a one-time pad *)
-  Notation X := (list rval).
   Definition mkdeliv (m : mask) : delivery R Z X :=
-    mkD R Z X (fst (fst m)) (snd (fst m))
-        (fun x t => rsub (leaf (nval t x nodes (snd m))) (sg (snd (fst m)) (t (fst (fst m))))).
+    mkD R Z X (m_cell m) (m_neg m)
+        (fun x t => rsub (leaf (lval t x nodes (m_node m) (m_comp m))) (sg (m_neg m) (t (m_cell m)))).
   Definition dlist (M : list mask) : list (delivery R Z X) := map mkdeliv M.
 
   Lemma dlist_cells M : map (d_mask R Z X) (dlist M) = mask_cells M.
   Proof. unfold dlist, mask_cells. rewrite map_map. reflexivity. Qed.
 
   Lemma mkdeliv_msg m x t :
-    msg R radd ropp Z X (mkdeliv m) x t = leaf (nval t x nodes (snd m)).
+    msg R radd ropp Z X (mkdeliv m) x t = leaf (lval t x nodes (m_node m) (m_comp m)).
   Proof. unfold Privacy.msg, mkdeliv. cbn [d_mask d_neg d_rest]. ring. Qed.
 
   Lemma lin_existsb cl s l :
@@ -456,41 +710,40 @@ Section Sound.
     apply andb_true_iff in H as [H1 H2]. apply Z.eqb_eq in H1. apply Bool.eqb_prop in H2. now subst.
   Qed.
 
-  Lemma masks_ok_otp M : masks_okb (infos c p nodes) M = true -> otp_ok R Z Z.eqb X (dlist M).
+  Lemma masks_ok_otp M : masks_okb Inf M = true -> otp_ok R Z Z.eqb X (dlist M).
   Proof.
-    induction M as [|[[cl s] n] r IH]; [intros; exact Logic.I|].
-    cbn [masks_okb]. change (zget (infos c p nodes) n ni_default) with (info_at c p nodes n).
-    change (zget (infos c p nodes) cl ni_default) with (info_at c p nodes cl).
+    induction M as [|[[[cl s] n] j] r IH]; [intros; exact Logic.I|].
+    cbn [masks_okb].
     intros H. apply andb_true_iff in H as [H He]. apply andb_true_iff in H as [H Hd].
     apply andb_true_iff in H as [H Hc]. apply andb_true_iff in H as [Ha Hb].
     apply lin_existsb in Ha. apply negb_true_iff in Hc.
+    destruct (loc_ok_lin n j _ Ha) as (S1 & _ & _ & S4).
     cbn [dlist map Privacy.otp_ok]. fold (dlist r). split; [|split].
-    - intros x t t' Hag. cbn [d_rest mkdeliv fst snd]. rewrite dlist_cells in Hag.
+    - intros x t t' Hag. cbn [d_rest mkdeliv m_cell m_neg m_node m_comp fst snd]. rewrite dlist_cells in Hag.
       set (t1 := upd t cl (t' cl)).
-      assert (E1 : nval t1 x nodes n = nval t' x nodes n).
-      { apply supp_sound. intros cl' Hcl'. unfold t1. destruct (Z.eq_dec cl' cl) as [->|Hne].
+      assert (E1 : lval t1 x nodes n j = lval t' x nodes n j).
+      { apply (S1 t1 t' x). intros cl' Hcl'. unfold t1. destruct (Z.eq_dec cl' cl) as [->|Hne].
         - apply upd_same.
-        - rewrite upd_other by exact Hne. apply Hag. cbn [d_mask mkdeliv fst snd map existsb].
+        - rewrite upd_other by exact Hne. apply Hag. cbn [d_mask mkdeliv m_cell fst snd map existsb].
           replace (cl' =? cl) with false by lia. cbn [orb].
           destruct (existsb (Z.eqb cl') (mask_cells r)) eqn:Ex; [|reflexivity].
           apply existsb_exists in Ex as (y & Hy & Ey). apply Z.eqb_eq in Ey. subst y.
           rewrite forallb_forall in Hd. specialize (Hd cl' Hy). apply negb_true_iff in Hd. congruence. }
-      pose proof (slope_sound n cl s Ha t x (t' cl)) as E2. fold t1 in E2.
+      pose proof (S4 cl s Ha t x (t' cl)) as E2. cbn beta in E2. fold t1 in E2.
       rewrite <- E1, E2. cbn [MaskCheck.leaf]. destruct s; cbn [Privacy.sgn]; ring.
-    - cbn [d_mask mkdeliv fst snd]. rewrite dlist_cells. exact Hc.
+    - cbn [d_mask mkdeliv m_cell fst snd]. rewrite dlist_cells. exact Hc.
     - apply IH. exact He.
   Qed.
 
-  Lemma masks_ok_in M : masks_okb (infos c p nodes) M = true -> forall cl s n, In (cl, s, n) M ->
-    In (cl, s) (ni_lin (I n)) /\ ni_vd (I cl) = false.
+  Lemma masks_ok_in M : masks_okb Inf M = true -> forall cl s n j, In (cl, s, n, j) M ->
+    In (cl, s) (ni_lin (linfo Inf n j)) /\ ni_vd (I cl) = false.
   Proof.
-    induction M as [|[[cl0 s0] n0] r IH]; [intros _ ? ? ? []|].
-    cbn [masks_okb]. change (zget (infos c p nodes) n0 ni_default) with (info_at c p nodes n0).
-    change (zget (infos c p nodes) cl0 ni_default) with (info_at c p nodes cl0).
-    intros H cl s n Hin. apply andb_true_iff in H as [H He]. apply andb_true_iff in H as [H Hd].
+    induction M as [|[[[cl0 s0] n0] j0] r IH]; [intros _ ? ? ? ? []|].
+    cbn [masks_okb].
+    intros H cl s n j Hin. apply andb_true_iff in H as [H He]. apply andb_true_iff in H as [H Hd].
     apply andb_true_iff in H as [H Hc]. apply andb_true_iff in H as [Ha Hb].
     destruct Hin as [Hin|Hin]; [|now apply IH].
-    injection Hin as <- <- <-. split; [now apply lin_existsb | now apply negb_true_iff].
+    injection Hin as <- <- <- <-. split; [now apply lin_existsb | now apply negb_true_iff].
   Qed.
 
   (* ---------------------------------------------------------------- reveal patterns *)
@@ -513,41 +766,64 @@ Section Sound.
     destruct (exists_last Hne) as (l' & a & ->). rewrite last_last. apply in_or_app. right. now left.
   Qed.
 
-  Lemma etree_sound : forall fuel n i b, etree (infos c p nodes) nodes fuel n i = Some b ->
-    forall t x t' x', (forall j, 0 <= j < n -> ni_vd (I j) = true -> V t' x' j = V t x j) ->
-    rsub (leaf (V t' x' i)) (if b then leaf (V t' x' n) else r0)
-    = rsub (leaf (V t x i)) (if b then leaf (V t x n) else r0).
+  (* the two runs agree on everything in the view below node n *)
+  Definition agree_below (n : Z) (t : tape) (x : X) (t' : tape) (x' : X) : Prop :=
+    (forall d, 0 <= d < n -> ni_vd (I d) = true -> V t' x' d = V t x d) /\
+    (forall d j cj, 0 <= d < n -> znth (C d) j = Ok cj -> ni_vd cj = true ->
+                    cval j (V t' x' d) = cval j (V t x d)).
+
+  Lemma etree_sound : forall fuel n jn i b, etree Inf nodes fuel n jn i = Some b ->
+    forall t x t' x', agree_below n t x t' x' ->
+    rsub (leaf (V t' x' i)) (if b then leaf (lval t' x' nodes n jn) else r0)
+    = rsub (leaf (V t x i)) (if b then leaf (lval t x nodes n jn) else r0).
   Proof.
-    induction fuel as [|f IH]; intros n i b H t x t' x' Hag; cbn [etree] in H; [discriminate|].
-    destruct (Z.eqb_spec i n) as [->|Hne].
-    { injection H as <-. ring. }
-    change (zget (infos c p nodes) i ni_default) with (info_at c p nodes i) in H.
+    induction fuel as [|f IH]; intros n jn i b H t x t' x' Hag; cbn [etree] in H; [discriminate|].
+    destruct ((jn <? 0) && (i =? n)) eqn:Eroot.
+    { injection H as <-. apply andb_true_iff in Eroot as [Ej Ei]. apply Z.eqb_eq in Ei. subst i.
+      unfold MaskCheck.lval. rewrite Ej. ring. }
     destruct ((i <? n) && ni_vd (I i)) eqn:El.
     { injection H as <-. apply andb_true_iff in El as [El1 El2].
       destruct (Z_le_dec 0 i) as [H0|H0].
-      - rewrite (Hag i) by (auto; lia). reflexivity.
+      - rewrite (proj1 Hag i) by (auto; lia). reflexivity.
       - rewrite !nval_out by lia. reflexivity. }
     destruct (znth nodes i) as [nd| | |] eqn:E; try discriminate.
     destruct (n_op nd) eqn:Eo; try discriminate.
-    destruct (n_deps nd) as [|a [|b0 [|? ?]]] eqn:Ed; try discriminate.
-    destruct ((0 <=? a) && (a <? i) && (0 <=? b0) && (b0 <? i)) eqn:Er; try discriminate.
-    destruct (etree (infos c p nodes) nodes f n a) as [xa|] eqn:Ea; try discriminate.
-    destruct (etree (infos c p nodes) nodes f n b0) as [xb|] eqn:Eb; try discriminate.
-    pose proof (IH n a xa Ea t x t' x' Hag) as Ia. pose proof (IH n b0 xb Eb t x t' x' Hag) as Ib.
-    assert (S : forall t x, V t x i = RLeaf (radd (leaf (V t x a)) (leaf (V t x b0)))).
-    { intros t0 x0. rewrite (nval_spec t0 x0 i nd E), msem_other by (now rewrite Eo).
-      rewrite Eo, Ed. cbn [map MaskCheck.mnode]. rewrite !vlk_in by lia. reflexivity. }
-    rewrite !S. cbn [MaskCheck.leaf].
-    destruct xa, xb; cbn [andb orb] in H; try discriminate; injection H as <-.
-    - replace (rsub (radd (leaf (V t' x' a)) (leaf (V t' x' b0))) (leaf (V t' x' n)))
-        with (radd (rsub (leaf (V t' x' a)) (leaf (V t' x' n))) (rsub (leaf (V t' x' b0)) r0)) by ring.
-      rewrite Ia, Ib. ring.
-    - replace (rsub (radd (leaf (V t' x' a)) (leaf (V t' x' b0))) (leaf (V t' x' n)))
-        with (radd (rsub (leaf (V t' x' a)) r0) (rsub (leaf (V t' x' b0)) (leaf (V t' x' n)))) by ring.
-      rewrite Ia, Ib. ring.
-    - replace (rsub (radd (leaf (V t' x' a)) (leaf (V t' x' b0))) r0)
-        with (radd (rsub (leaf (V t' x' a)) r0) (rsub (leaf (V t' x' b0)) r0)) by ring.
-      rewrite Ia, Ib. ring.
+    - (* Add *)
+      destruct (n_deps nd) as [|a [|b0 [|? ?]]] eqn:Ed; try discriminate.
+      destruct ((0 <=? a) && (a <? i) && (0 <=? b0) && (b0 <? i)) eqn:Er; try discriminate.
+      destruct (etree Inf nodes f n jn a) as [xa|] eqn:Ea; try discriminate.
+      destruct (etree Inf nodes f n jn b0) as [xb|] eqn:Eb; try discriminate.
+      pose proof (IH n jn a xa Ea t x t' x' Hag) as Ia. pose proof (IH n jn b0 xb Eb t x t' x' Hag) as Ib.
+      assert (S : forall t x, V t x i = RLeaf (radd (leaf (V t x a)) (leaf (V t x b0)))).
+      { intros t0 x0. rewrite (nval_spec t0 x0 i nd E), msem_other by (now rewrite Eo).
+        rewrite Eo, Ed. cbn [map MaskCheck.mnode]. rewrite !vlk_in by lia. reflexivity. }
+      rewrite !S. cbn [MaskCheck.leaf].
+      set (L' := leaf (lval t' x' nodes n jn)) in *. set (L := leaf (lval t x nodes n jn)) in *.
+      destruct xa, xb; cbn [andb orb] in H; try discriminate; injection H as <-.
+      + replace (rsub (radd (leaf (V t' x' a)) (leaf (V t' x' b0))) L')
+          with (radd (rsub (leaf (V t' x' a)) L') (rsub (leaf (V t' x' b0)) r0)) by ring.
+        rewrite Ia, Ib. ring.
+      + replace (rsub (radd (leaf (V t' x' a)) (leaf (V t' x' b0))) L')
+          with (radd (rsub (leaf (V t' x' a)) r0) (rsub (leaf (V t' x' b0)) L')) by ring.
+        rewrite Ia, Ib. ring.
+      + replace (rsub (radd (leaf (V t' x' a)) (leaf (V t' x' b0))) r0)
+          with (radd (rsub (leaf (V t' x' a)) r0) (rsub (leaf (V t' x' b0)) r0)) by ring.
+        rewrite Ia, Ib. ring.
+    - (* TupleGet *)
+      rename i0 into j.
+      destruct (n_deps nd) as [|d [|? ?]] eqn:Ed; try discriminate.
+      destruct ((0 <=? d) && (d <? i) && (0 <=? j)) eqn:Er; try discriminate.
+      assert (S : forall t x, V t x i = cval j (V t x d)).
+      { intros t0 x0. rewrite (nval_spec t0 x0 i nd E), msem_other by (now rewrite Eo).
+        rewrite Eo, Ed. cbn [map]. rewrite mnode_tget, vlk_in by lia. reflexivity. }
+      rewrite !S.
+      destruct ((d =? n) && (j =? jn)) eqn:Eh.
+      { injection H as <-. apply andb_true_iff in Eh as [E1 E2]. apply Z.eqb_eq in E1, E2. subst d jn.
+        unfold MaskCheck.lval. replace (j <? 0) with false by lia. ring. }
+      destruct ((d <? n) && ni_vd (linfo Inf d j)) eqn:Ev; try discriminate.
+      injection H as <-. apply andb_true_iff in Ev as [Ev1 Ev2].
+      destruct (linfo_cases d j) as [[Hj _]|[[Hj (cj & Hc & Ec)]|[Hj Ec]]]; [lia| |rewrite Ec in Ev2; discriminate].
+      rewrite Ec in Ev2. rewrite (proj2 Hag d j cj) by (auto; lia). reflexivity.
   Qed.
 
   Lemma deliveries_in : forall l k i nd, nth_error l k = Some nd -> is_deliv p nd = true ->
@@ -571,14 +847,15 @@ Section Sound.
       (forall t cl, pi' (pi t) cl = t cl) /\
       (forall t cl, pi (pi' t) cl = t cl) /\
       (forall t cl, zmem cl (mask_cells M) = false -> pi t cl = t cl) /\
-      (forall t i, mc_vd c p nodes i = true -> V (pi t) x' i = V t x i).
+      (forall t i, mc_vd c p nodes i = true -> V (pi t) x' i = V t x i) /\
+      (forall t i j, mc_cvd c p nodes i j = true -> cval j (V (pi t) x' i) = cval j (V t x i)).
   Proof.
     unfold maskcheck.
     set (chain := outchain nodes (length nodes) out).
-    set (dl := deliveries p nodes).
-    set (M0 := fst (fold_left (find_step (infos c p nodes) nodes (zmem p (cfg_outputs c)) chain) dl ([], []))).
-    destruct (wf_okb c nodes && masks_okb (infos c p nodes) M0 &&
-              forallb (deliv_okb (infos c p nodes) nodes (zmem p (cfg_outputs c)) chain M0) dl) eqn:Ck; [|discriminate].
+    set (dl := all_locs Inf p nodes).
+    set (outp := zmem p (cfg_outputs c)).
+    set (M0 := fst (fold_left (find_step Inf nodes outp chain) dl ([], []))).
+    destruct (wf_okb c nodes && masks_okb Inf M0 && forallb (deliv_okb Inf nodes outp chain M0) dl) eqn:Ck; [|discriminate].
     intros [= <-]. apply andb_true_iff in Ck as [Ck Hdl]. apply andb_true_iff in Ck as [_ Hmk].
     intros x x' Hx Hout.
     destruct (otp_bijection R radd ropp r0 r1 rmul rsub Rth Z Z.eqb Z.eqb_eq X (dlist M0) x x'
@@ -587,61 +864,169 @@ Section Sound.
     split; [exact I1|]. split; [exact I2|]. split.
     { intros t cl Hcl. apply O. rewrite dlist_cells. exact Hcl. }
     set (pi := Privacy.pi R radd ropp Z Z.eqb X (dlist M0) x x') in *.
-    intros t i. revert t. pattern i. apply node_ind. clear i. intros i IH t Hvd. unfold mc_vd in Hvd.
-    destruct (node_cases i) as [(nd & E & Hi)|Ho]; [|rewrite info_out in Hvd by exact Ho; discriminate].
-    assert (PRE : ni_pre (I i) = true -> V (pi t) x' i = V t x i).
-    { intros Hp. rewrite (info_spec i nd E) in Hp.
+    (* both parts by one induction on the node id *)
+    assert (Q : forall i,
+      (ni_vd (I i) = true -> forall t, V (pi t) x' i = V t x i) /\
+      (forall j cj, znth (C i) j = Ok cj -> ni_vd cj = true -> forall t, cval j (V (pi t) x' i) = cval j (V t x i))).
+    2:{ split.
+        - intros t i Hvd. now apply (proj1 (Q i)).
+        - intros t i j Hvd. unfold mc_cvd in Hvd. apply andb_true_iff in Hvd as [Hj Hvd].
+          destruct (linfo_cases i j) as [[Hj' _]|[[Hj' (cj & Hc & Ec)]|[Hj' Ec]]]; [lia| |rewrite Ec in Hvd; discriminate].
+          rewrite Ec in Hvd. now apply (proj2 (Q i) j cj). }
+    intros i. pattern i. apply node_ind. clear i. intros i IH.
+    destruct (node_cases i) as [(nd & E & Hi)|Ho].
+    2:{ rewrite I_at, C_at, info_out by exact Ho. cbn [fst snd xi_default]. split; [discriminate|].
+        intros j cj H. exfalso. exact (znth_nil_not_ok _ _ H). }
+    pose proof (info_spec i nd E) as Einfo.
+    remember (skipn (inum i) (cfg_inputs c)) as sts eqn:Ests.
+    assert (Hag : forall t, agree_below i t x (pi t) x').
+    { intros t. split.
+      - intros d Hd Hv. now apply (proj1 (IH d Hd)).
+      - intros d j cj Hd Hc Hv. now apply (proj2 (IH d Hd) j cj). }
+    (* dependencies in the view *)
+    assert (DEP : forall d, ni_vd (fst (ilook i d)) = true -> forall t, vlk (pi t) x' i d = vlk t x i d).
+    { intros d Hv t. destruct (ilook_cases i d) as [[Hr El]|[Hr El]]; rewrite El in Hv; [|discriminate].
+      rewrite !vlk_in by exact Hr. now apply (proj1 (IH d Hr)). }
+    assert (DEPC : forall d j cj, znth (snd (ilook i d)) j = Ok cj -> ni_vd cj = true ->
+                   forall t, cval j (vlk (pi t) x' i d) = cval j (vlk t x i d)).
+    { intros d j cj Hc Hv t. destruct (ilook_cases i d) as [[Hr El]|[Hr El]]; rewrite El in Hc.
+      - rewrite !vlk_in by exact Hr. now apply (proj2 (IH d Hr) j cj).
+      - exfalso. exact (znth_nil_not_ok _ _ Hc). }
+    pose proof (isem_vd_top c p i nd (ilook i) sts) as VD. rewrite <- Einfo, <- I_at in VD.
+    (* determined without the delivery: the whole value *)
+    assert (PRE : ni_pre (I i) = true -> forall t, V (pi t) x' i = V t x i).
+    { intros Hp0 t. pose proof Hp0 as Hp. rewrite I_at, Einfo in Hp.
       rewrite (nval_spec (pi t) x' i nd E), (nval_spec t x i nd E).
+      unfold isem in Hp.
+      destruct (tget_of (n_op nd) (map (ilook i) (n_deps nd))) as [cj|] eqn:Et.
+      { cbn [fst ni_pre] in Hp. apply tget_of_inv in Et as (j & a & cs & Eo & Exs & Hj).
+        apply map_singleton in Exs as (d & Ed & El).
+        rewrite !msem_other by (now rewrite Eo). rewrite Eo, Ed. cbn [map]. rewrite !mnode_tget.
+        apply (DEPC d j cj); auto. now rewrite El. }
+      cbn [fst ni_pre] in Hp.
       destruct (is_input (n_op nd)) eqn:Ein.
-      { rewrite !msem_input, !hd_skipn by exact Ein. unfold isem in Hp. cbn [ni_pre] in Hp.
-        destruct (n_op nd); try discriminate Ein.
-        destruct (skipn (inum i) (cfg_inputs c)) as [|st r] eqn:Es; [discriminate|].
-        apply skipn_cons_nth_error in Es. symmetry. apply (Hx _ st Es).
+      { rewrite !msem_input, !hd_skipn by exact Ein.
+        destruct (n_op nd); try discriminate Ein. cbn [pre_of] in Hp.
+        destruct sts as [|st r]; [discriminate|]. symmetry in Ests.
+        apply skipn_cons_nth_error in Ests. symmetry. apply (Hx _ st Ests).
         destruct st as [q| |]; [left; f_equal; lia | now right | discriminate]. }
       rewrite !msem_other by exact Ein.
       destruct (isconst (n_op nd)) eqn:Ec; [now apply mnode_const|].
-      rewrite isem_pre_other in Hp by assumption.
+      rewrite pre_of_other in Hp by assumption.
       destruct (isprf (n_op nd)) eqn:Ep.
       { rewrite !mnode_prf by exact Ep. f_equal. apply O. rewrite dlist_cells.
         destruct (existsb (Z.eqb i) (mask_cells M0)) eqn:Ez; [|reflexivity]. exfalso.
-        apply zmem_In in Ez. unfold mask_cells in Ez. apply in_map_iff in Ez as ([[cl s] n] & Ee & Hin).
-        cbn in Ee. subst cl. destruct (masks_ok_in M0 Hmk _ _ _ Hin) as [_ Hv]. congruence. }
+        apply zmem_In in Ez. unfold mask_cells in Ez. apply in_map_iff in Ez as ([[[cl s] n] j] & Ee & Hin).
+        cbn in Ee. subst cl. destruct (masks_ok_in M0 Hmk _ _ _ _ Hin) as [_ Hv].
+        assert (Hvd : ni_vd (I i) = true) by (rewrite VD, Hp0; apply orb_true_r).
+        congruence. }
       rewrite (mnode_tape (pi t) t) by exact Ep. f_equal. apply map_ext_in. intros d Hd.
-      rewrite forallb_forall in Hp. specialize (Hp (ilook i d) (in_map _ _ _ Hd)).
-      destruct (ilook_cases i d) as [[Hr El]|[Hr El]]; rewrite El in Hp; [|discriminate].
-      rewrite !vlk_in by exact Hr. apply IH; auto. }
-    pose proof Hvd as Hvd'. rewrite (info_spec i nd E), isem_vd, <- (info_spec i nd E) in Hvd'.
-    apply orb_true_iff in Hvd' as [Hd|Hp]; [|now apply PRE].
-    assert (Hin_dl : In i dl).
-    { apply znth_nth_error in E as [_ E]. pose proof (deliveries_in nodes _ 0 nd E Hd) as D.
+      rewrite forallb_forall in Hp. apply DEP. apply Hp. rewrite map_map. apply in_map_iff. eauto. }
+    (* ... and a recorded component *)
+    assert (PREC : forall j cj, znth (C i) j = Ok cj -> ni_pre cj = true ->
+                   forall t, cval j (V (pi t) x' i) = cval j (V t x i)).
+    { intros j cj Hc Hp t. rewrite C_at, Einfo in Hc. unfold isem in Hc.
+      destruct (tget_of (n_op nd) (map (ilook i) (n_deps nd))) as [cj0|] eqn:Et; cbn [snd] in Hc.
+      { exfalso. exact (znth_nil_not_ok _ _ Hc). }
+      apply znth_map_inv in Hc as (c1 & Hc & ->). cbn [set_deliv ni_pre] in Hp.
+      rewrite (nval_spec (pi t) x' i nd E), (nval_spec t x i nd E).
+      apply comps_of_inv in Hc as [(Eo & xd & Hc & ->)|(Eo & a & cs & c0 & Exs & Hc & ->)].
+      - apply znth_map_inv in Hc as (d & Hd & ->). cbn [as_comp ni_pre] in Hp.
+        rewrite !msem_other by (now rewrite Eo). rewrite Eo. cbn [MaskCheck.mnode MaskCheck.cval].
+        rewrite (znth_zget _ _ _ RKey (znth_map (vlk (pi t) x' i) _ _ _ Hd)).
+        rewrite (znth_zget _ _ _ RKey (znth_map (vlk t x i) _ _ _ Hd)).
+        now apply DEP.
+      - apply map_singleton in Exs as (d & Ed & El). cbn [as_comp ni_pre] in Hp.
+        rewrite !msem_other by (now rewrite Eo). rewrite Eo, Ed. cbn [map MaskCheck.mnode].
+        apply (DEPC d j c0); auto. now rewrite El. }
+    (* a delivered location that the checker accepted *)
+    assert (LOC : forall j, In (i, j) dl ->
+                  valid_loc i j ->
+                  forall t, lval (pi t) x' nodes i j = lval t x nodes i j).
+    { intros j Hin Hj t.
+      rewrite forallb_forall in Hdl. specialize (Hdl (i, j) Hin). unfold deliv_okb in Hdl.
+      pose proof (loc_ok_valid i j Hj) as Hloc.
+      apply orb_true_iff in Hdl as [Hf|Hm].
+      - unfold deliv_free in Hf. cbn [fst snd] in Hf.
+        apply orb_true_iff in Hf as [Hf|HE]. 1: apply orb_true_iff in Hf as [Hf|HE'].
+        1: apply orb_true_iff in Hf as [Hpre|Hkey].
+        + (* K *)
+          destruct Hj as [Hj|(cj & Hc)].
+          * rewrite linfo_top in Hpre by exact Hj. rewrite !lval_top by exact Hj. now apply PRE.
+          * destruct (linfo_comp i j cj Hc) as [Hj E']. rewrite E' in Hpre. rewrite !lval_comp by exact Hj.
+            now apply (PREC j cj).
+        + (* Key *)
+          destruct (ni_kind (linfo Inf i j)) eqn:K; try discriminate.
+          destruct Hloc as (_ & KS & _). now rewrite !(KS K).
+        + (* E': a copy of the output *)
+          apply andb_true_iff in HE' as [Ho Hc]. apply zmem_In in Hc.
+          assert (EV : V (pi t) x' i = V t x i).
+          { rewrite !(outchain_same _ _ _ Hc). symmetry. now apply Hout. }
+          unfold MaskCheck.lval. now rewrite EV.
+        + (* E: the missing summand of the output *)
+          apply andb_true_iff in HE as [HE Ht]. apply andb_true_iff in HE as [Ho Hk].
+          destruct (ni_kind (linfo Inf i j)) eqn:K; try discriminate.
+          destruct Hloc as (_ & _ & KS & _). specialize (KS K). cbn beta in KS.
+          rewrite (KS (pi t) x'), (KS t x). f_equal.
+          pose proof (outchain_last (length nodes) out) as Hlast. fold chain in Hlast.
+          assert (EB : V (pi t) x' (last chain 0) = V t x (last chain 0)).
+          { rewrite !(outchain_same _ _ _ Hlast). symmetry. now apply Hout. }
+          unfold epat in Ht. destruct (j <? 0) eqn:Ej.
+          * destruct (etree Inf nodes (length nodes) i j (last chain 0)) as [[|]|] eqn:Et; try discriminate.
+            pose proof (etree_sound _ _ _ _ _ Et t x (pi t) x' (Hag t)) as ES. cbn iota in ES.
+            rewrite EB in ES.
+            set (A := leaf (V t x (last chain 0))) in *.
+            set (B' := leaf (lval (pi t) x' nodes i j)) in *. set (B := leaf (lval t x nodes i j)) in *.
+            replace B' with (rsub A (rsub A B')) by ring. rewrite ES. ring.
+          * destruct (znth nodes (last chain 0)) as [ndb| | |] eqn:Eb; try discriminate.
+            destruct (n_op ndb) eqn:Eob; try discriminate.
+            destruct (znth (n_deps ndb) j) as [cn| | |] eqn:Ecn; try discriminate.
+            apply andb_true_iff in Ht as [Hr Ht].
+            destruct (etree Inf nodes (length nodes) i j cn) as [[|]|] eqn:Et; try discriminate.
+            pose proof (etree_sound _ _ _ _ _ Et t x (pi t) x' (Hag t)) as ES. cbn iota in ES.
+            assert (SB : forall t x, cval j (V t x (last chain 0)) = V t x cn).
+            { intros t0 x0. rewrite (nval_spec t0 x0 _ ndb Eb), msem_other by (now rewrite Eob).
+              rewrite Eob. cbn [MaskCheck.mnode MaskCheck.cval].
+              rewrite (znth_zget _ _ _ RKey (znth_map (vlk t0 x0 (last chain 0)) _ _ _ Ecn)).
+              apply vlk_in. lia. }
+            assert (EC : V (pi t) x' cn = V t x cn) by (rewrite <- !SB; now rewrite EB).
+            rewrite EC in ES.
+            set (A := leaf (V t x cn)) in *.
+            set (B' := leaf (lval (pi t) x' nodes i j)) in *. set (B := leaf (lval t x nodes i j)) in *.
+            replace B' with (rsub A (rsub A B')) by ring. rewrite ES. ring.
+      - (* M: masked *)
+        apply existsb_exists in Hm as ([[[cl s] n] jm] & Hin' & En). cbn [m_node m_comp fst snd] in En.
+        apply andb_true_iff in En as [En Ej]. apply Z.eqb_eq in En, Ej. subst n jm.
+        destruct (masks_ok_in M0 Hmk _ _ _ _ Hin') as [Hl _].
+        specialize (Mg t). rewrite Forall_forall in Mg.
+        specialize (Mg (mkdeliv (cl, s, i, j)) (in_map _ _ _ Hin')). rewrite !mkdeliv_msg in Mg.
+        cbn [m_node m_comp fst snd] in Mg.
+        rewrite (lin_leaf i j cl s Hl (pi t) x'), (lin_leaf i j cl s Hl t x). f_equal. exact Mg. }
+    assert (VDC : forall j cj, znth (C i) j = Ok cj -> ni_vd cj = is_deliv p nd || ni_pre cj).
+    { intros j cj Hc. rewrite C_at, Einfo in Hc. now apply (isem_vd_comp c p i nd (ilook i) sts j cj). }
+    assert (INDL : is_deliv p nd = true -> forall l, In l (deliv_locs Inf i) -> In l dl).
+    { intros Hd l Hl. unfold dl, all_locs. apply in_flat_map. exists i. split; [|exact Hl].
+      apply znth_nth_error in E as [_ E]. pose proof (deliveries_in nodes _ 0 nd E Hd) as D.
       rewrite Z2Nat.id in D by lia. exact D. }
-    rewrite forallb_forall in Hdl. specialize (Hdl i Hin_dl). unfold deliv_okb in Hdl.
-    apply orb_true_iff in Hdl as [Hf|Hm].
-    - unfold deliv_free in Hf. change (zget (infos c p nodes) i ni_default) with (info_at c p nodes i) in Hf.
-      apply orb_true_iff in Hf as [Hf|HE]. 1: apply orb_true_iff in Hf as [Hf|HE'].
-      1: apply orb_true_iff in Hf as [Hpre|Hkey].
-      + now apply PRE.
-      + destruct (ni_kind (I i)) eqn:K; try discriminate.
-        destruct (kind_sound i) as [KS _]. now rewrite !(KS K).
-      + apply andb_true_iff in HE' as [Ho Hc]. apply zmem_In in Hc.
-        rewrite !(outchain_same _ _ _ Hc). symmetry. now apply Hout.
-      + apply andb_true_iff in HE as [HE Ht]. apply andb_true_iff in HE as [Ho Hk].
-        destruct (ni_kind (I i)) eqn:K; try discriminate.
-        destruct (kind_sound i) as [_ KS]. specialize (KS K).
-        destruct (etree (infos c p nodes) nodes (length nodes) i (last chain 0)) as [[|]|] eqn:Et; try discriminate.
-        pose proof (etree_sound _ _ _ _ Et t x (pi t) x') as ES.
-        assert (Hag : forall j, 0 <= j < i -> ni_vd (I j) = true -> V (pi t) x' j = V t x j)
-          by (intros j Hj Hv; apply IH; auto).
-        specialize (ES Hag).
-        rewrite !(outchain_same _ _ _ (outchain_last (length nodes) out)) in ES.
-        rewrite <- (Hout Ho t (pi t)) in ES.
-        rewrite (KS (pi t) x'), (KS t x). f_equal.
-        set (A := leaf (V t x out)) in *. set (B' := leaf (V (pi t) x' i)) in *. set (B := leaf (V t x i)) in *.
-        replace B' with (rsub A (rsub A B')) by ring. rewrite ES. ring.
-    - apply existsb_exists in Hm as ([[cl s] n] & Hin & En). cbn [snd] in En. apply Z.eqb_eq in En. subst n.
-      destruct (masks_ok_in M0 Hmk _ _ _ Hin) as [Hl _].
-      specialize (Mg t). rewrite Forall_forall in Mg.
-      specialize (Mg (mkdeliv (cl, s, i)) (in_map _ _ _ Hin)). rewrite !mkdeliv_msg in Mg. cbn [snd] in Mg.
-      rewrite (lin_leaf i cl s Hl (pi t) x'), (lin_leaf i cl s Hl t x). f_equal. exact Mg.
+    assert (INC : forall j cj, znth (C i) j = Ok cj -> In (i, j) (deliv_locs Inf i)).
+    { intros j cj Hc. unfold deliv_locs. apply in_or_app. right. apply in_map_iff. exists j. split; auto.
+      apply in_zrange. now apply znth_range in Hc. }
+    split.
+    - intros Hvd t. rewrite VD in Hvd. apply orb_true_iff in Hvd as [Hd|Hp]; [|now apply PRE].
+      destruct (kind_eqb (ni_kind (I i)) KdTup) eqn:K.
+      + assert (K' : ni_kind (I i) = KdTup) by (destruct (ni_kind (I i)); try discriminate K; reflexivity).
+        destruct (shape_ok i K' (pi t) x') as (vs' & E' & L'). destruct (shape_ok i K' t x) as (vs & E0 & L).
+        rewrite E', E0. f_equal. apply (zget_ext vs' vs RKey); [congruence|].
+        intros j Hj. destruct (znth_in_range (C i) j) as (cj & Hc); [lia|].
+        pose proof (LOC j (INDL Hd _ (INC j cj Hc)) (or_intror (ex_intro _ cj Hc)) t) as EL.
+        rewrite !lval_comp, E', E0 in EL by lia. exact EL.
+      + assert (In (i, -1) (deliv_locs Inf i)) as Hin.
+        { unfold deliv_locs. rewrite K. apply in_or_app. left. now left. }
+        assert (Hneg : -1 < 0) by lia.
+        pose proof (LOC (-1) (INDL Hd _ Hin) (or_introl Hneg) t) as EL.
+        rewrite !lval_top in EL by lia. exact EL.
+    - intros j cj Hc Hvd t. rewrite (VDC j cj Hc) in Hvd. apply orb_true_iff in Hvd as [Hd|Hp]; [|now apply (PREC j cj)].
+      pose proof (LOC j (INDL Hd _ (INC j cj Hc)) (or_intror (ex_intro _ cj Hc)) t) as EL.
+      apply znth_range in Hc. rewrite !lval_comp in EL by lia. exact EL.
   Qed.
 End Sound.
